@@ -502,7 +502,11 @@ class Repo:
                         continue
                     local = a.asname or a.name
                     sub = f"{absmod}.{a.name}"
-                    if sub in self.modules:
+                    if sub in self.modules and absmod in self.modules:
+                        # `from pkg import name` takes the attribute `name` of the package when its __init__ binds
+                        # one (qlasskit.ast2ast binds the function ast2ast over the submodule of the same name)
+                        m.imports[local] = ("symmod", absmod, a.name, sub)
+                    elif sub in self.modules:
                         m.imports[local] = ("module", sub)
                     elif absmod in self.modules:
                         m.imports[local] = ("symbol", absmod, a.name)
@@ -526,6 +530,18 @@ class Repo:
             imp = m.imports[name]
             if imp[0] == "module":
                 return self.modules[imp[1]]
+            if imp[0] == "symmod":
+                pkg = self.modules[imp[1]]
+                n2 = imp[2]
+                bound = n2 in pkg.functions or n2 in pkg.classes or n2 in pkg.globals_assigned
+                pi = pkg.imports.get(n2)
+                if pi is not None and not (pi[0] == "module" and pi[1] == imp[3]):
+                    bound = True
+                if bound and pkg is not m:
+                    r = self.resolve_name(pkg, n2, _seen)
+                    if r is not None:
+                        return r
+                return self.modules[imp[3]]
             if imp[0] == "symbol":
                 r = self.resolve_name(self.modules[imp[1]], imp[2], _seen)
                 if r is not None:
